@@ -497,6 +497,10 @@ def matchable_statuses(ctx, rep, R):
 _SI = "flumine/simulation/simulation.py"
 _OP = "flumine/order/orderpackage.py"
 MUTANTS = [
+    dict(id="c07-book-captured-before-paper-latency", file="flumine/execution/simulatedexecution.py", func="SimulatedExecution.execute_place",
+         old="        if order_package.client.paper_trade:\n            time.sleep(order_package.bet_delay + config.place_latency)\n        market = self.flumine.markets.markets[order_package.market_id]\n",
+         new="        market = self.flumine.markets.markets[order_package.market_id]\n        market_book = market.market_book\n        if order_package.client.paper_trade:\n            time.sleep(order_package.bet_delay + config.place_latency)\n",
+         expect=["R1"], why="the book is read before the real-time latency of paper trading has passed"),
     dict(id="c07-remove-during-scan", file=_SI, func="FlumineSimulation._check_pending_packages",
          old="                processed.append(order_package)\n", new="                self.handler_queue.remove(order_package)\n",
          expect=["R2"], why="removal while iterating skips the package behind every released one"),
